@@ -1765,3 +1765,523 @@ func extra4C20(c *Ctx) {
 	}
 	c.Expect(rule, "built-in pre-tokeniser expressions", n, 3)
 }
+
+// ================================================================== round 5
+
+func init() {
+	wrap := func(id string, extra func(c *Ctx)) {
+		prev := registry[id].Run
+		registry[id].Run = func(c *Ctx) { prev(c); extra(c) }
+	}
+	wrap("C02", extra5C02)
+}
+
+// ---------------------------------------------------------------------------------- C02
+
+func extra5C02(c *Ctx) {
+	rule := "C02-R14"
+	c.Rule(rule, "whoever disarms a runner's keep-alive timer settles the runner's future before letting go of it: in the critical section of runnerRef.refMu in which expireTimer is set to nil there is also a look at refCount (a test, ++ or --), a post of the runner on expiredCh, or the unload itself — the reference count may change the moment refMu is released, so a section that only stops the timer (after an idle test made in an earlier section) can leave an idle runner with neither a timer nor an expiry event: it is never shut down and stays in /api/ps")
+	info := c.P.Pkgs["server"].TypesInfo
+	fTimer := c.P.LookupField("server", "runnerRef", "expireTimer")
+	fRef := c.P.LookupField("server", "runnerRef", "refCount")
+	fRefMu := c.P.LookupField("server", "runnerRef", "refMu")
+	fExp := c.P.LookupField("server", "Scheduler", "expiredCh")
+	if fTimer == nil || fRef == nil || fRefMu == nil || fExp == nil {
+		c.Undecided(rule, "anchor:runnerRef.expireTimer/refCount/refMu, Scheduler.expiredCh", "-", "anchor lost")
+		return
+	}
+	isRefMuCall := func(n ast.Node, method string) bool {
+		call, ok := n.(*ast.CallExpr)
+		if !ok {
+			return false
+		}
+		se, isS := ast.Unparen(call.Fun).(*ast.SelectorExpr)
+		if !isS || se.Sel.Name != method {
+			return false
+		}
+		inner, isI := ast.Unparen(se.X).(*ast.SelectorExpr)
+		return isI && core.FieldVar(info, inner) == fRefMu
+	}
+	nodeHas := func(n ast.Node, pred func(ast.Node) bool) bool {
+		found := false
+		core.InspectShallow(n, func(m ast.Node) bool {
+			if pred(m) {
+				found = true
+			}
+			return !found
+		})
+		return found
+	}
+	settles := func(n ast.Node) bool {
+		return nodeHas(n, func(m ast.Node) bool {
+			switch x := m.(type) {
+			case *ast.SendStmt:
+				return core.FieldVar(info, x.Chan) == fExp
+			case *ast.IncDecStmt:
+				return core.FieldVar(info, x.X) == fRef
+			case *ast.SelectorExpr:
+				return core.FieldVar(info, x) == fRef
+			case *ast.CallExpr:
+				return core.CalleeName(info, x) == "server.runnerRef.unload"
+			}
+			return false
+		})
+	}
+	n := 0
+	for _, top := range c.P.FuncsOf("server") {
+		if strings.HasSuffix(c.Pos(top.Body), "_test.go") {
+			continue
+		}
+		for _, f := range append([]*core.Func{top}, top.Lits()...) {
+			if f.Key() == "server.runnerRef.unload" {
+				continue // the unload itself
+			}
+			g := c.G(f)
+			for _, cl := range g.Find(func(m ast.Node) bool {
+				as, ok := m.(*ast.AssignStmt)
+				if !ok || len(as.Lhs) != 1 || len(as.Rhs) != 1 || core.FieldVar(info, as.Lhs[0]) != fTimer {
+					return false
+				}
+				id, isId := ast.Unparen(as.Rhs[0]).(*ast.Ident)
+				return isId && id.Name == "nil"
+			}) {
+				n++
+				// the section: from the nearest dominating refMu.Lock (or the function entry when the
+				// caller holds the lock) forward to the first Unlock on each path
+				start := g.Entry()
+				for _, lk := range g.Find(func(m ast.Node) bool { return isRefMuCall(m, "Lock") }) {
+					if g.Dominates(lk.Loc, cl.Loc) {
+						unlockedBetween := false
+						for _, ul := range g.Find(func(m ast.Node) bool { return isRefMuCall(m, "Unlock") }) {
+							if _, isDefer := ul.Top.(*ast.DeferStmt); isDefer {
+								continue
+							}
+							if g.Dominates(lk.Loc, ul.Loc) && g.Reaches(ul.Loc, cl.Loc) && !g.Reaches(cl.Loc, ul.Loc) {
+								unlockedBetween = true
+							}
+						}
+						if !unlockedBetween {
+							start = lk.Loc
+						}
+					}
+				}
+				settled := false
+				g.Walk(start, func(m ast.Node, l core.Loc) bool {
+					if _, isDefer := m.(*ast.DeferStmt); isDefer {
+						return false
+					}
+					if nodeHas(m, func(k ast.Node) bool { return isRefMuCall(k, "Unlock") }) {
+						return true
+					}
+					if settles(m) {
+						settled = true
+					}
+					return false
+				})
+				c.Check(rule, f.Key()+" timer disarmed#"+itoa(n)+" and the runner's future settled in one section", c.Pos(cl.Node), settled, "between taking refMu and releasing it this section stops the timer without looking at refCount, posting an expiry or unloading")
+			}
+		}
+	}
+	c.Expect(rule, "sites that disarm the keep-alive timer (outside unload)", n, 5)
+}
+
+// ---------------------------------------------------------------------------------- C03 / C09
+
+func init() {
+	prev3 := registry["C03"].Run
+	registry["C03"].Run = func(c *Ctx) { prev3(c); ruleTransferCancellable(c, "C03-R16", "blobDownload.run") }
+	prev9 := registry["C09"].Run
+	registry["C09"].Run = func(c *Ctx) { prev9(c); ruleTransferCancellable(c, "C09-R14", "blobUpload.Run") }
+}
+
+// ruleTransferCancellable: everything a transfer does hangs off the context whose cancel function the
+// transfer publishes in its CancelFunc field (the last waiter that leaves calls it).
+func ruleTransferCancellable(c *Ctx, rule, fn string) {
+	c.Rule(rule, "a transfer that nobody waits for any more stops: in "+fn+" the context whose cancel function is stored in the transfer's CancelFunc is the root of every context the function uses afterwards — each context-typed variable passed to a call is that context or derived from it (context.WithTimeout, errgroup.WithContext, …); a part group derived from the caller's uncancellable context keeps downloading after the pull was interrupted, finishes unobserved, renames the unverified file to its final name, and the retry takes it for a cache hit")
+	f := c.Fn(rule, "server", fn)
+	if f == nil {
+		return
+	}
+	info := f.Info()
+	isCtx := func(t types.Type) bool { return t != nil && core.ObjNameOfType(t) == "context.Context" }
+	// the WithCancel whose cancel function reaches CancelFunc
+	var root types.Object
+	var rootCall *ast.CallExpr
+	ast.Inspect(f.Body, func(n ast.Node) bool {
+		as, ok := n.(*ast.AssignStmt)
+		if !ok || len(as.Rhs) != 1 || len(as.Lhs) != 2 {
+			return true
+		}
+		call, isC := ast.Unparen(as.Rhs[0]).(*ast.CallExpr)
+		if !isC || core.CalleeName(info, call) != "context.WithCancel" {
+			return true
+		}
+		published := selName(as.Lhs[1]) == "CancelFunc"
+		if id, isId := as.Lhs[1].(*ast.Ident); isId && !published {
+			co := info.ObjectOf(id)
+			ast.Inspect(f.Body, func(m ast.Node) bool {
+				if a2, isA := m.(*ast.AssignStmt); isA && len(a2.Lhs) == 1 && len(a2.Rhs) == 1 && selName(a2.Lhs[0]) == "CancelFunc" && isIdentOf(info, a2.Rhs[0], co) {
+					published = true
+				}
+				return true
+			})
+		}
+		if id, isId := as.Lhs[0].(*ast.Ident); isId && published {
+			root, rootCall = info.ObjectOf(id), call
+		}
+		return true
+	})
+	if root == nil {
+		c.Undecided(rule, f.Key()+" cancellable context", c.Pos(f.Body), "anchor lost: no context.WithCancel whose cancel function is stored in CancelFunc")
+		return
+	}
+	// contexts derived from the root
+	derived := map[types.Object]bool{root: true}
+	for changed := true; changed; {
+		changed = false
+		ast.Inspect(f.Body, func(n ast.Node) bool {
+			as, ok := n.(*ast.AssignStmt)
+			if !ok || len(as.Rhs) != 1 {
+				return true
+			}
+			call, isC := ast.Unparen(as.Rhs[0]).(*ast.CallExpr)
+			if !isC || call == rootCall {
+				return true
+			}
+			from := false
+			for _, a := range call.Args {
+				if id, isId := ast.Unparen(a).(*ast.Ident); isId && derived[info.Uses[id]] && isCtx(info.TypeOf(a)) {
+					from = true
+				}
+			}
+			if !from {
+				return true
+			}
+			for _, l := range as.Lhs {
+				if id, isId := l.(*ast.Ident); isId {
+					if o := info.ObjectOf(id); o != nil && isCtx(o.Type()) && !derived[o] {
+						derived[o] = true
+						changed = true
+					}
+				}
+			}
+			return true
+		})
+	}
+	n := 0
+	ast.Inspect(f.Body, func(m ast.Node) bool {
+		call, ok := m.(*ast.CallExpr)
+		if !ok || call == rootCall {
+			return true
+		}
+		for _, a := range call.Args {
+			id, isId := ast.Unparen(a).(*ast.Ident)
+			if !isId || !isCtx(info.TypeOf(a)) {
+				continue
+			}
+			o := info.Uses[id]
+			if o == nil {
+				continue
+			}
+			// parameters of nested literals (func(ctx context.Context) …) are bound by their callers
+			if v, isV := o.(*types.Var); isV && o.Pos() > f.Body.Pos() && isParamOfLit(f, v) {
+				continue
+			}
+			n++
+			c.Check(rule, f.Key()+" context use#"+itoa(n)+" hangs off the published cancel", c.Pos(call), derived[o], "`"+id.Name+"` given to "+core.CalleeName(info, call)+" does not derive from the context that CancelFunc cancels")
+		}
+		return true
+	})
+	c.Expect(rule, "context arguments in "+fn, n, 2)
+}
+
+func isParamOfLit(f *core.Func, v *types.Var) bool {
+	found := false
+	ast.Inspect(f.Body, func(n ast.Node) bool {
+		lit, ok := n.(*ast.FuncLit)
+		if !ok {
+			return true
+		}
+		for _, fl := range lit.Type.Params.List {
+			for _, nm := range fl.Names {
+				if f.Info().Defs[nm] == v {
+					found = true
+				}
+			}
+		}
+		return true
+	})
+	return found
+}
+
+// ---------------------------------------------------------------------------------- C05
+
+func init() {
+	prev := registry["C05"].Run
+	registry["C05"].Run = func(c *Ctx) { prev(c); extra5C05(c) }
+}
+
+func extra5C05(c *Ctx) {
+	rule := "C05-R12"
+	c.Rule(rule, "a skipped string is skipped whole: wherever fs/ggml reads into a buffer slice whose length is min(<remaining>, <buffer capacity>) — a declared length clamped to the scratch buffer — the read sits in a loop that continues while the remaining count is positive and subtracts what the read returned (or the function hands the whole count to io.CopyN); reading one clamped piece leaves the rest of a long element of an uncollected array in the stream, and every key after it is decoded from the wrong bytes")
+	info := c.P.Pkgs[ggmlPkg].TypesInfo
+	n := 0
+	for _, f := range c.P.FuncsOf(ggmlPkg) {
+		if strings.HasSuffix(c.Pos(f.Body), "_test.go") || ggufWriterSide[f.Name] {
+			continue
+		}
+		ast.Inspect(f.Body, func(m ast.Node) bool {
+			call, ok := m.(*ast.CallExpr)
+			if !ok {
+				return true
+			}
+			nm := core.CalleeName(info, call)
+			if nm != "io.Reader.Read" && nm != "io.ReadFull" && nm != "io.ReadAtLeast" {
+				return true
+			}
+			// the buffer argument: X[:min(rem, cap/len(...))]
+			var rem types.Object
+			for _, a := range call.Args {
+				sl, isS := ast.Unparen(a).(*ast.SliceExpr)
+				if !isS || sl.High == nil {
+					continue
+				}
+				mc, isC := ast.Unparen(sl.High).(*ast.CallExpr)
+				if !isC || core.CalleeName(info, mc) != "builtin.min" || len(mc.Args) != 2 {
+					continue
+				}
+				for i, ma := range mc.Args {
+					other := mc.Args[1-i]
+					oc, isOC := ast.Unparen(other).(*ast.CallExpr)
+					if id, isId := ast.Unparen(ma).(*ast.Ident); isId && isOC && (core.CalleeName(info, oc) == "builtin.cap" || core.CalleeName(info, oc) == "builtin.len") {
+						rem = info.Uses[id]
+					}
+				}
+			}
+			if rem == nil {
+				return true
+			}
+			n++
+			ok2, why := false, "the clamped read is not inside a loop"
+			if loop, isF := loopAround(f, call).(*ast.ForStmt); isF && loop != nil && loop.Cond != nil {
+				why = "the loop does not run while the remaining count is positive and subtract the bytes read"
+				condOK := false
+				if be, isB := ast.Unparen(loop.Cond).(*ast.BinaryExpr); isB {
+					_, y, op, okO := core.Orient(be, func(e ast.Expr) bool { return isIdentOf(info, e, rem) })
+					if v, isV := core.ConstInt(info, y); okO && isV && ((op == token.GTR && v == 0) || (op == token.GEQ && v == 1) || (op == token.NEQ && v == 0)) {
+						condOK = true
+					}
+				}
+				// rem -= <count the read returned>
+				cnt := core.ResultVar(info, stmtOf(f, call), call, 0)
+				subOK := false
+				ast.Inspect(loop.Body, func(k ast.Node) bool {
+					if as, isA := k.(*ast.AssignStmt); isA && as.Tok == token.SUB_ASSIGN && len(as.Lhs) == 1 && isIdentOf(info, as.Lhs[0], rem) && cnt != nil && core.UsesObj(info, as.Rhs[0], cnt) {
+						subOK = true
+					}
+					return true
+				})
+				ok2 = condOK && subOK
+			}
+			c.Check(rule, f.Key()+" clamped read#"+itoa(n)+" repeated until the count is used up", c.Pos(call), ok2, why)
+			return true
+		})
+	}
+	c.Expect(rule, "reads clamped to a scratch buffer", n, 1)
+}
+
+// stmtOf returns the statement of f that contains n (for ResultVar).
+func stmtOf(f *core.Func, n ast.Node) ast.Node {
+	var best ast.Node
+	ast.Inspect(f.Body, func(x ast.Node) bool {
+		if x == nil {
+			return false
+		}
+		if x.Pos() > n.Pos() || x.End() < n.End() {
+			return false
+		}
+		if _, ok := x.(ast.Stmt); ok {
+			if _, isBlock := x.(*ast.BlockStmt); !isBlock {
+				switch x.(type) {
+				case *ast.AssignStmt, *ast.ExprStmt, *ast.DeclStmt:
+					best = x
+				}
+			}
+		}
+		return true
+	})
+	return best
+}
+
+// ---------------------------------------------------------------------------------- C07 (and C06)
+
+func init() {
+	prev7 := registry["C07"].Run
+	registry["C07"].Run = func(c *Ctx) { prev7(c); ruleMaskBuiltLast(c, "C07-R16") }
+	prev6 := registry["C06"].Run
+	registry["C06"].Run = func(c *Ctx) { prev6(c); ruleMaskBuiltLast(c, "C06-R14") }
+}
+
+// ruleMaskBuiltLast: the mask describes the state the cache is left in.
+func ruleMaskBuiltLast(c *Ctx, rule string) {
+	c.Rule(rule, "the mask is built from the state the batch is evaluated with: in every method of Causal that calls buildMask, no field that buildMask reads (batch size, sequences, positions, cell range, the non-causal exceptions in opts) is stored after the call — every such store precedes it — and StartForward resets the exceptions before building (resetting them afterwards builds the next batch's default mask with the previous batch's SetCausal exceptions, and the equality short-cut in SetCausal then never rebuilds it: prompt tokens attend to later positions)")
+	info := c.P.Pkgs["kvcache"].TypesInfo
+	bm := c.Fn(rule, "kvcache", "Causal.buildMask")
+	if bm == nil {
+		return
+	}
+	recvOf := func(f *core.Func) types.Object { return recvObj(f) }
+	// receiver field paths read by buildMask: first field, plus the second for nested structs (opts.Except)
+	pathKey := func(f *core.Func, e ast.Expr) string {
+		p := core.PathOf(info, e)
+		if !p.Valid() || p.Root != recvOf(f) || len(p.Fields) == 0 {
+			return ""
+		}
+		k := p.Fields[0].Name()
+		if len(p.Fields) > 1 {
+			if _, isStruct := p.Fields[0].Type().Underlying().(*types.Struct); isStruct {
+				k += "." + p.Fields[1].Name()
+			}
+		}
+		return k
+	}
+	reads := map[string]bool{}
+	ast.Inspect(bm.Body, func(n ast.Node) bool {
+		if se, ok := n.(*ast.SelectorExpr); ok {
+			if k := pathKey(bm, se); k != "" {
+				reads[k] = true
+			}
+		}
+		return true
+	})
+	c.Expect(rule, "receiver fields read by buildMask", len(reads), 5)
+	nCalls, nStores := 0, 0
+	for _, f := range c.P.FuncsOf("kvcache") {
+		if strings.HasSuffix(c.Pos(f.Body), "_test.go") || f.Key() == bm.Key() {
+			continue
+		}
+		g := c.G(f)
+		calls := g.FindCalls("kvcache.Causal.buildMask")
+		if len(calls) == 0 {
+			continue
+		}
+		nCalls += len(calls)
+		for _, st := range g.Find(func(n ast.Node) bool {
+			as, ok := n.(*ast.AssignStmt)
+			if !ok {
+				return false
+			}
+			for _, l := range as.Lhs {
+				if k := pathKey(f, l); k != "" && reads[k] {
+					return true
+				}
+			}
+			return false
+		}) {
+			as := st.Node.(*ast.AssignStmt)
+			field := ""
+			for _, l := range as.Lhs {
+				if k := pathKey(f, l); k != "" && reads[k] {
+					field = k
+				}
+			}
+			if field == "curMask" {
+				continue
+			}
+			nStores++
+			bad := ""
+			for _, cl := range calls {
+				if st.Top == cl.Top {
+					continue // c.curMask, err = c.buildMask(ctx)
+				}
+				if g.Reaches(cl.Loc, st.Loc) && !g.Dominates(st.Loc, cl.Loc) {
+					bad = c.Pos(cl.Node)
+				}
+			}
+			c.Check(rule, f.Key()+" store:"+field+" precedes the mask", c.Pos(as), bad == "", "c."+field+" is written after the mask was built at "+bad+": the mask no longer describes the state")
+		}
+	}
+	c.Expect(rule, "buildMask calls in package kvcache", nCalls, 2)
+	c.Expect(rule, "stores to mask inputs next to a buildMask call", nStores, 5)
+	// StartForward resets the exceptions before it builds
+	if f := c.Fn(rule, "kvcache", "Causal.StartForward"); f != nil {
+		g := c.G(f)
+		calls := g.FindCalls("kvcache.Causal.buildMask")
+		ok := false
+		for _, st := range g.Find(func(n ast.Node) bool {
+			as, isA := n.(*ast.AssignStmt)
+			return isA && len(as.Lhs) == 1 && len(as.Rhs) == 1 && pathKey(f, as.Lhs[0]) == "opts.Except" && core.ExprString(as.Rhs[0]) == "nil"
+		}) {
+			for _, cl := range calls {
+				if g.Dominates(st.Loc, cl.Loc) {
+					ok = true
+				}
+			}
+		}
+		c.Check(rule, f.Key()+" exceptions reset before the default mask is built", c.Pos(f.Decl), ok && len(calls) == 1, "StartForward must clear opts.Except on every path before its buildMask call")
+	}
+}
+
+func init() {
+	prev := registry["C09"].Run
+	registry["C09"].Run = func(c *Ctx) { prev(c); extra5C09Wait(c) }
+}
+
+// extra5C09Wait is C09-R15: only the worker's own word ends a wait.
+func extra5C09Wait(c *Ctx) {
+	rule := "C09-R15"
+	c.Rule(rule, "a layer counts as pushed when the upload worker says so, not when its bytes are out: in blobUpload.Wait the return of the upload's result is decided by a condition over the worker's completion flag and error only (b.done, b.err) — the progress counter reaches the total as soon as the last part's body has been sent, before the registry answered the part or the commit request, so a wait that ends on Completed >= Total lets PushModel send the manifest for layers the registry has not accepted (or later refuses)")
+	f := c.Fn(rule, "server", "blobUpload.Wait")
+	if f == nil {
+		return
+	}
+	info := f.Info()
+	g := c.G(f)
+	fDone := c.P.LookupField("server", "blobUpload", "done")
+	fErr := c.P.LookupField("server", "blobUpload", "err")
+	if fDone == nil || fErr == nil {
+		c.Undecided(rule, "anchor:blobUpload.done/err", "-", "anchor lost")
+		return
+	}
+	n := 0
+	for _, ex := range g.Returns() {
+		if ex.Return == nil || len(ex.Return.Results) != 1 {
+			continue
+		}
+		se, isS := ast.Unparen(ex.Return.Results[0]).(*ast.SelectorExpr)
+		if !isS || core.FieldVar(info, se) != fErr {
+			continue // ctx.Err()
+		}
+		n++
+		// the conditions this return depends on
+		ok, why := false, "the return is unconditional"
+		for _, fct := range g.Facts(ex.Loc) {
+			onlyWorker, mentions := true, false
+			ast.Inspect(fct.Expr, func(m ast.Node) bool {
+				if s2, isSel := m.(*ast.SelectorExpr); isSel {
+					if fv := core.FieldVar(info, s2); fv != nil {
+						switch fv {
+						case fDone, fErr:
+							mentions = true
+						default:
+							if fv.Pkg() != nil && fv.Pkg().Name() == "server" {
+								onlyWorker = false
+								why = "the wait ends on " + core.ExprString(fct.Expr) + ", which reads " + fv.Name()
+							}
+						}
+					}
+				}
+				return true
+			})
+			if mentions && onlyWorker {
+				ok = true
+			}
+			if !onlyWorker {
+				ok = false
+				break
+			}
+		}
+		c.Check(rule, f.Key()+" result return#"+itoa(n)+" decided by the worker's flag and error", c.Pos(ex.Return), ok, why)
+	}
+	c.Expect(rule, "returns of the upload result in Wait", n, 1)
+}
